@@ -170,7 +170,7 @@ macro_rules! probe_type {
             fn par(cfg: &ParCfg, data: &[f64]) -> Option<Self> {
                 // indices are positions in the sequence that survives the filter stage
                 let kept: Vec<f64> =
-                    data.iter().copied().filter(|x| crate::est::keep(*x, cfg.filter_seed)).collect();
+                    data.iter().copied().filter(|x| crate::est::keep2(*x, cfg.filter_seed, cfg.filter_ge)).collect();
                 if !set_lookup(&kept) {
                     return None;
                 }
